@@ -166,12 +166,122 @@ def run_one(teletype, P, s, prefill=None):
     return p, before, p.childNodes[k:]
 
 
+# ---------------------------------------------------------------- every character XML can represent, through save + load
+def is_xml_char(o):
+    """the Char production of XML 1.0: "any other characters XML can represent" of the property text"""
+    return o in (0x9, 0xA, 0xD) or 0x20 <= o <= 0xD7FF or 0xE000 <= o <= 0xFFFD or 0x10000 <= o <= 0x10FFFF
+
+
+def is_discouraged(o):
+    """the class of the known finding KF-C02-1 (the writer replaces these although XML can represent them)"""
+    return 0x7f <= o <= 0x84 or 0x86 <= o <= 0x9f or (o >= 0x1fffe and (o & 0xffff) >= 0xfffe)
+
+
+def class_boundary_codepoints():
+    """both sides of every boundary between classes of code points (XML Char production, C0/C1 controls, surrogates,
+    non-character blocks, plane ends), restricted to XML Chars"""
+    b = [0x9, 0xA, 0xD, 0x20, 0x21, 0x7E, 0x7F, 0x80, 0x84, 0x85, 0x86, 0x9F, 0xA0, 0xFF, 0x100, 0x7FF, 0x800, 0xD7FF, 0xE000, 0xF8FF, 0xF900,
+         0xFDCF, 0xFDD0, 0xFDEF, 0xFDF0, 0xFDFA, 0xFDFF, 0xFE00, 0xFEFF, 0xFFF0, 0xFFFC, 0xFFFD]
+    for plane in range(1, 17):
+        b += [plane << 16, (plane << 16) + 1, (plane << 16) + 0xFFFD, (plane << 16) + 0xFFFE, (plane << 16) + 0xFFFF]
+    return [o for o in b if is_xml_char(o)]
+
+
+def saveload_paragraphs(teletype, P, OpenDocumentText, load, strings):
+    """one document, one paragraph per string, saved and loaded: the extracted strings (None when the paragraph count differs)"""
+    doc = OpenDocumentText()
+    for s in strings:
+        p = P(); teletype.addTextToElement(p, s); doc.text.addElement(p)
+    buf = io.BytesIO(); doc.save(buf); buf.seek(0)
+    ps = load(buf).getElementsByType(P)
+    if len(ps) != len(strings):
+        return None
+    return [teletype.extractText(p) for p in ps]
+
+
+def all_chars_check(chk, drv, teletype, P, OpenDocumentText, load):
+    """EVERY character XML 1.0 can represent (all 1,112,030 of them, 17 strings of up to 65,536 consecutive code points) and
+    strings that put both sides of every code-point class boundary between blanks, tabs and line breaks: inserted with the
+    helper, extracted directly, and extracted after save()+load().  Expected (property text): the string itself.  A string that
+    comes back different is narrowed to single code points, each confirmed on its own in a fresh document (`a<c>b`)."""
+    chunks = [u''.join(chr(c) for c in range(lo, lo + 0x10000) if is_xml_char(c)) for lo in range(0, 0x110000, 0x10000)]
+    mixed = []
+    for o in class_boundary_codepoints():
+        c = chr(o)
+        mixed.append(u'a ' + c + u'  ' + c + c + u'\t' + c + u'\n' + c + u' ')
+    strings = chunks + mixed
+    # correspondence: the model is driven through the same characters, in pieces of 4096 (its buffer append is quadratic) -
+    # quick: the whole BMP and both ends of every other plane; thorough: everything
+    pieces = list(mixed)
+    for ci, s in enumerate(chunks):
+        cut = [s[i:i + 4096] for i in range(0, len(s), 4096)]
+        pieces += cut if (ci == 0 or chk.tier != 'quick') else [cut[0][:1024], cut[-1][-1024:]]
+    for s, ans in zip(pieces, drv.batch('enc ' + enc_str(s) for s in pieces)):
+        p, _, new = run_one(teletype, P, s)
+        impl = 'ok ' + ' '.join(dump_nodes(new))
+        chk.corr(); chk.count('all_chars_model_pieces')
+        if impl.strip() != ans.strip():
+            chk.corr_diff({'s': enc_str(s[:40]), 'length': len(s)}, short(impl), short(ans), 'nodes appended by addTextToElement (every XML character)')
+    for s in strings:
+        p, _, new = run_one(teletype, P, s)
+        impl = 'ok ' + ' '.join(dump_nodes(new))
+        chk.count('all_chars_strings'); chk.count('all_chars_codepoints', len(s))
+        chk.case(('all-chars', len(s), enc_str(s[:3])))
+        got = teletype.extractText(p)
+        if got != s:
+            k = next((i for i in range(min(len(got), len(s))) if got[i] != s[i]), min(len(got), len(s)))
+            one = u'a' + s[k:k + 1] + u'b'
+            p1, _, _ = run_one(teletype, P, one)
+            if teletype.extractText(p1) != one:
+                chk.fail('roundtrip-direct', {'s': enc_str(one)}, 'extractText gave %r for %r' % (teletype.extractText(p1), one))
+            else:
+                chk.fail('roundtrip-direct', {'s': enc_str(s)}, 'extractText differs at offset %d: %r for %r' % (k, got[k - 4:k + 4], s[k - 4:k + 4]))
+        if not clean_nodes(new):
+            chk.fail('raw-whitespace', {'s': enc_str(s)}, 'inserted nodes %s' % short(impl))
+    back = saveload_paragraphs(teletype, P, OpenDocumentText, load, strings)
+    if back is None:
+        chk.fail('roundtrip-saveload', {'s': enc_str(mixed[0]), 'mode': 'saveload'}, 'paragraph count differs after save+load'); return
+    suspects = []
+    for s, got in zip(strings, back):
+        chk.count('saveload')
+        if got == s:
+            continue
+        if len(got) == len(s):
+            suspects += [s[i] for i in range(len(s)) if got[i] != s[i]]
+        else:
+            suspects += list(s)
+    seen = set(); suspects = [c for c in suspects if not (c in seen or seen.add(c))]
+    confirmed = 0
+    for off in range(0, len(suspects), 2048):
+        if confirmed >= 40:
+            break
+        part = [u'a' + c + u'b' for c in suspects[off:off + 2048]]
+        res = saveload_paragraphs(teletype, P, OpenDocumentText, load, part) or [None] * len(part)
+        for one, got in zip(part, res):
+            if got == one:
+                continue
+            confirmed += 1
+            if is_discouraged(ord(one[1])) and got == u'a�b':
+                # the class of KF-C02-1 seen through the whitespace helper: known finding KF-C17-1, its own signature
+                chk.count('known_roundtrip-saveload:discouraged-codepoint')
+                chk.fail('roundtrip-saveload:discouraged-codepoint', {'s': enc_str(one), 'mode': 'saveload'},
+                         'after save+load extractText gave %r for %r (U+%04X is a character XML 1.0 can represent; the writer replaces the discouraged code points)' % (got, one, ord(one[1])))
+            elif confirmed <= 40:
+                chk.fail('roundtrip-saveload', {'s': enc_str(one), 'mode': 'saveload'},
+                         'after save+load extractText gave %r for %r (U+%04X is a character XML 1.0 can represent)' % (got, one, ord(one[1])))
+    if suspects and not confirmed:
+        # only wrong in company: report the shortest of the strings that came back different
+        s, got = min(((s, g) for s, g in zip(strings, back) if g != s), key=lambda x: len(x[0]))
+        chk.fail('roundtrip-saveload', {'s': enc_str(s), 'mode': 'saveload'}, 'after save+load extractText gave %r for %r' % (short(got), short(s)))
+
+
 def run(chk, replay=None):
     from odf import teletype
     from odf.text import P
     from odf.opendocument import OpenDocumentText, load
     chk.rule = ('all strings of length <= %d over {SP,TAB,LF,CR,a,<,&} plus seeded random strings <= 40 over a wider alphabet; '
-                'non-trivial = distinct string containing at least one of SP/TAB/LF' % (6 if chk.tier == 'thorough' else 4))
+                'every XML 1.0 character (17 strings of consecutive code points) and both sides of every code-point class boundary between '
+                'blanks/tabs/line breaks, directly and after save+load; non-trivial = distinct string containing at least one of SP/TAB/LF' % (6 if chk.tier == 'thorough' else 4))
     if replay is not None and replay['input'].get('big'):
         b = replay['input']['big']
         bad, hit, at = run_big(teletype, b['pad'], tuple(b['orders']), b.get('at'))
@@ -184,6 +294,11 @@ def run(chk, replay=None):
         p, before, new = run_one(teletype, P, s, replay['input'].get('prefill') and dec_str(replay['input']['prefill']))
         got = teletype.extractText(p)
         print('replay: s=%r nodes=%s extract=%r' % (s, dump_nodes(new), got))
+        if replay['input'].get('mode') == 'saveload':
+            back = saveload_paragraphs(teletype, P, OpenDocumentText, load, [s])
+            print('replay: after save+load extract=%r' % (back and back[0],))
+            if back != [s]:
+                return 1
         return 0 if got == before + s and clean_nodes(new) else 1
     chk.prove(modules=['OdfModel.Props.C17', 'OdfModel.Props.C17SaveLoad'], drivers=['drv_teletype'])
     drv = chk.driver('drv_teletype')
@@ -205,6 +320,8 @@ def run(chk, replay=None):
             chk.fail('roundtrip-direct', {'s': enc_str(s)}, 'extractText gave %r for %r' % (short(got), short(s)))
         if not clean_nodes(new):
             chk.fail('raw-whitespace', {'s': enc_str(s)}, 'inserted nodes %s' % short(impl))
+    # ---- every character XML can represent, and both sides of every code-point class boundary, directly and through save+load
+    all_chars_check(chk, drv, teletype, P, OpenDocumentText, load)
     # ---- appended to an element that already has content
     pre = [u'x', u'x ', u' ', u'a\tb', u'  ', u'q\n']
     for i, (s, kind) in enumerate(cases):
